@@ -149,7 +149,24 @@ def _check_transform(tr, case, data, index, fit_cols, cats, facts, expect_unseen
     return labels
 
 
+def _tiled(case):
+    """a long query frame (more than 1024 rows): the drawn test rows repeated, each repetition rotated by one more row so that the rows
+    1024 positions apart differ; the index becomes 0..N-1"""
+    reps = case["tile"]
+    nte = len(case["test_index"])
+    test = {}
+    for c, vals in case["test"].items():
+        out = []
+        for r in range(reps):
+            k = r % nte
+            out.extend(vals[k:] + vals[:k])
+        test[c] = out
+    return dict(case, test=test, test_index=list(range(nte * reps)))
+
+
 def check(case):
+    if case.get("tile"):
+        case = _tiled(case)
     o = case["options"]
     cols = case["cols"]
     cat_cols = case["cat_cols"]
@@ -205,7 +222,7 @@ def check(case):
     labels |= {"single" if o["single"] else "indicators", "skip_errors" if o["skip_errors"] else "strict",
                "columns=" + facts["columns"], "dtype=" + case["dtype"],
                "has-missing" if has_missing else "no-missing", "has-unseen" if has_unseen else "no-unseen",
-               "remove" if o["remove"] else "no-remove", "ncat=%d" % len(fit_cols)}
+               "remove" if o["remove"] else "no-remove", "ncat=%d" % len(fit_cols), "query-rows>1024" if len(case["test_index"]) > 1024 else "query-rows<=1024"}
     return Outcome(labels, has_missing or has_unseen or len(fit_cols) >= 2)
 
 
@@ -283,6 +300,6 @@ def _cases(draw, tier="quick"):
 
 
 CLAUSES = [
-    Clause("encode", check, strategy=lambda tier: with_np(_cases(tier)), quick=2400, thorough=40000, quick_shards=12,
+    Clause("encode", check, strategy=lambda tier: st.builds(lambda c, t, f: dict(c, tile=(1024 // len(c["test_index"]) + t) if f == 0 else 0), with_np(_cases(tier)), st.integers(2, 200), st.integers(0, 15)), quick=2400, thorough=40000, quick_shards=12,
            doc="fit on a frame, transform it and a second frame with missing/unseen values; reference encoder + metamorphic relation"),
 ]
